@@ -6,3 +6,55 @@ package firmwaremanagement
 // Contracts for /verif (tool: gov); comments only.
 // the command registry and the sentinel error are written by package init only
 //@ immutable commandPayloadRegistry ErrNoPayloadForCID
+
+// ---------------------------------------------------------------------------
+// C09 / C10: decoders are total and write only their receiver (thin contracts)
+// ---------------------------------------------------------------------------
+//@ func interface CommandPayload.Size
+//@   modifies nothing
+//@   ensures nonneg: result >= 0 && result <= 4611686018427387904
+//@ func interface CommandPayload.UnmarshalBinary
+//@   modifies *self
+//@ func interface CommandPayload.MarshalBinary
+//@   modifies nothing
+//@ func (*PackageVersionAnsPayload).UnmarshalBinary
+//@   props C09 C10
+//@   modifies *p
+//@ func (*DevVersionReqPayload).UnmarshalBinary
+//@   props C09 C10
+//@   modifies *p
+//@ func (*DevVersionAnsPayload).UnmarshalBinary
+//@   props C09 C10
+//@   modifies *p
+//@ func (*DevRebootTimeReqPayload).UnmarshalBinary
+//@   props C09 C10
+//@   modifies *p
+//@ func (*DevRebootTimeAnsPayload).UnmarshalBinary
+//@   props C09 C10
+//@   modifies *p
+//@ func (*DevRebootCountdownReqPayload).UnmarshalBinary
+//@   props C09 C10
+//@   modifies *p
+//@ func (*DevRebootCountdownAnsPayload).UnmarshalBinary
+//@   props C09 C10
+//@   modifies *p
+//@ func (*DevUpgradeImageReqPayload).UnmarshalBinary
+//@   props C09 C10
+//@   modifies *p
+//@ func (*DevUpgradeImageAnsPayload).UnmarshalBinary
+//@   props C09 C10
+//@   modifies *p
+//@ func (*DevDeleteImageReqPayload).UnmarshalBinary
+//@   props C09 C10
+//@   modifies *p
+//@ func (*DevDeleteImageAnsPayload).UnmarshalBinary
+//@   props C09 C10
+//@   modifies *p
+//@ func (*Command).UnmarshalBinary
+//@   props C09 C10
+//@   modifies *c
+//@ func (Command).Size
+//@   props C09
+//@   modifies nothing
+//@   requires typed-nil: c.Payload != nil ==> as_nonnil(c.Payload)
+//@   ensures positive: result >= 1
